@@ -13,6 +13,7 @@ pub mod c12;
 pub mod c16;
 pub mod c17;
 pub mod c19;
+pub mod c20;
 pub mod cpu;
 
 pub fn all() -> Vec<Box<dyn Property>> {
@@ -32,5 +33,6 @@ pub fn all() -> Vec<Box<dyn Property>> {
         Box::new(c16::C16),
         Box::new(c17::C17),
         Box::new(c19::C19),
+        Box::new(c20::C20),
     ]
 }
